@@ -276,16 +276,14 @@ Proof.
       * intros [= <-]. eapply inv_set_thread; try eassumption; intros; discriminate.
       * destruct (nth_error (x :: todo') (l_pick l)) as [[k p]|] eqn:EP; [|discriminate].
         pose proof (It _ _ _ _ k p E (nth_error_In _ _ EP)) as G.
-        destruct (wW (swd (nth p (c_heap c) init)) =? 0).
-        -- intros [= <-]. eapply inv_set_thread; try eassumption; intros; discriminate.
-        -- intros [= <-].
-           replace (c_trace c) with (c_trace c ++ []) by apply app_nil_r.
-           eapply (inv_region c (l_tid l) _ _ k p _ (SPeek (l_now l))); try eassumption.
-           ++ reflexivity.
-           ++ intros k1 _. cbn. destruct (key_eqb k1 k); reflexivity.
-           ++ intros; discriminate.
-           ++ intros todo1 acc1 idle1 k1 q [= <- _ _] HIn.
-              eapply It; [exact E|]. eapply In_remove_nth. exact HIn.
+        cbn [divides andb]. intros [= <-].
+        replace (c_trace c) with (c_trace c ++ []) by apply app_nil_r.
+        eapply (inv_region c (l_tid l) _ _ k p _ (SPeek (l_now l))); try eassumption.
+        -- reflexivity.
+        -- intros k1 _. cbn. destruct (key_eqb k1 k); reflexivity.
+        -- intros; discriminate.
+        -- intros todo1 acc1 idle1 k1 q [= <- _ _] HIn.
+           eapply It; [exact E|]. eapply In_remove_nth. exact HIn.
     + discriminate.
     + discriminate.
 Qed.
@@ -376,11 +374,11 @@ Proof.
     + destruct todo as [|x todo'].
       * destruct v; intros [= <-]; cbn; (split; [apply HS; reflexivity | left; reflexivity]).
       * destruct (nth_error (x :: todo') (l_pick l)) as [[k p]|]; [|discriminate].
-        destruct (wW (swd (nth p (c_heap c) init)) =? 0).
+        destruct (divides v && (wW (swd (nth p (c_heap c) init)) =? 0)).
         -- intros [= <-]. cbn. split; [apply HS; reflexivity | left; reflexivity].
         -- intros [= <-]. cbn. split; [apply HS; reflexivity|].
            right. exists k, (SPeek (l_now l)). repeat split.
-    + destruct v; [discriminate|]. intros [= <-]. cbn. split; [apply HS; reflexivity | left; reflexivity].
+    + destruct v; try discriminate. intros [= <-]. cbn. split; [apply HS; reflexivity | left; reflexivity].
     + discriminate.
 Qed.
 
@@ -629,14 +627,12 @@ Proof.
     + destruct todo as [|x todo'].
       * intros [= <-]. constructor; cbn; try assumption; [apply HT | apply HK; exact I].
       * destruct (nth_error (x :: todo') (l_pick l)) as [[k p]|]; [|discriminate].
-        destruct (wW (swd (nth p (c_heap c) init)) =? 0).
-        -- intros [= <-]. constructor; cbn; try assumption; [apply HT | apply HK; exact I].
-        -- intros [= <-]. constructor; cbn.
-           ++ exact Sm.
-           ++ rewrite length_upd. exact Sl.
-           ++ apply HT.
-           ++ apply HK. exact I.
-           ++ rewrite filter_inc_snoc. cbn. rewrite app_nil_r. exact Sg.
+        cbn [divides andb]. intros [= <-]. constructor; cbn.
+        -- exact Sm.
+        -- rewrite length_upd. exact Sl.
+        -- apply HT.
+        -- apply HK. exact I.
+        -- rewrite filter_inc_snoc. cbn. rewrite app_nil_r. exact Sg.
     + discriminate.
     + discriminate.
 Qed.
@@ -928,7 +924,7 @@ Proof.
     destruct t as [|pc]; [discriminate|]. destruct pc as [| |todo acc idle| |]; try discriminate.
     exists {| l_tid := i; l_now := 0; l_pick := 0 |}. unfold step. cbn [l_tid l_now l_pick]. rewrite Ei.
     cbn [step_col]. destruct todo as [|[k p] todo']; [eexists; reflexivity|].
-    cbn [nth_error]. destruct (wW (swd (nth p (c_heap c) init)) =? 0); eexists; reflexivity.
+    cbn [nth_error divides andb]. eexists; reflexivity.
   - destruct (reading (c_threads c)) eqn:ER.
     + (* a collection waiting for the registry, which is free *)
       unfold reading in ER. destruct (existsb_nth _ _ ER) as (i & t & Ei & Ht).
@@ -983,7 +979,7 @@ Proof.
     + destruct todo as [|x todo'].
       * injection HS as <-. apply HU. reflexivity.
       * destruct (nth_error _ _) as [[k p]|]; [|discriminate].
-        destruct (_ =? 0); injection HS as <-; apply HU; reflexivity.
+        cbn [divides andb] in HS. injection HS as <-; apply HU; reflexivity.
     + discriminate.
     + discriminate.
 Qed.
@@ -1065,3 +1061,79 @@ Proof.
   eexists. eexists. split; [vm_compute; reflexivity|]. split; [vm_compute; reflexivity|].
   split; vm_compute; reflexivity.
 Qed.
+
+(* --- metrics collections always complete (Counter() of patches/C09/fix-F-C09b.patch) --- *)
+
+Definition not_failed (t : thread) : bool :=
+  match t with TCol (CDone None) => false | _ => true end.
+
+Lemma step_head_not_failed c l c' :
+  step Head c l = Some c' -> forallb not_failed (c_threads c) = true ->
+  forallb not_failed (c_threads c') = true.
+Proof.
+  unfold step. destruct (nth_error (c_threads c) (l_tid l)) as [t|]; [|discriminate].
+  intros HS HN.
+  assert (HU : forall t', not_failed t' = true ->
+                          forallb not_failed (upd (c_threads c) (l_tid l) t') = true).
+  { intros t' Ht. apply forallb_upd; assumption. }
+  destruct t as [k wd pc|pc].
+  - destruct pc as [| |p|vd]; cbn [step_req] in HS.
+    + destruct (reading _); [discriminate|]. injection HS as <-. apply HU. reflexivity.
+    + destruct (negb (key_valid k)).
+      * injection HS as <-. apply HU. reflexivity.
+      * destruct (reg_locked Head _); [discriminate|].
+        destruct (rget _ _); injection HS as <-; apply HU; reflexivity.
+    + destruct (try_inc _ _ _). injection HS as <-. apply HU. reflexivity.
+    + discriminate.
+  - destruct pc as [| |todo acc idle|acc idle|out]; cbn [step_col] in HS.
+    + injection HS as <-. apply HU. reflexivity.
+    + destruct (reg_locked Head _); [discriminate|]. injection HS as <-. apply HU. reflexivity.
+    + destruct todo as [|x todo'].
+      * injection HS as <-. apply HU. reflexivity.
+      * destruct (nth_error _ _) as [[k p]|]; [|discriminate].
+        cbn [divides andb] in HS. injection HS as <-; apply HU; reflexivity.
+    + discriminate.
+    + discriminate.
+Qed.
+
+Lemma run_head_not_failed sch : forall c c',
+  run Head c sch = Some c' -> forallb not_failed (c_threads c) = true ->
+  forallb not_failed (c_threads c') = true.
+Proof.
+  induction sch as [|l r IH]; intros c c' HR HN; cbn [run] in HR.
+  - injection HR as <-. exact HN.
+  - destruct (step Head c l) as [c1|] eqn:ES; [|discriminate].
+    apply (IH c1 c' HR). eapply step_head_not_failed; eassumption.
+Qed.
+
+Lemma initial_not_failed ts : forallb initial ts = true -> forallb not_failed ts = true.
+Proof.
+  intros H. rewrite forallb_forall in *. intros t HIn. specialize (H t HIn).
+  destruct t as [k wd pc|pc]; [reflexivity|]. destruct pc; try discriminate; reflexivity.
+Qed.
+
+Lemma head_collections_complete ts sch c' i out :
+  forallb initial ts = true -> run Head (init_config ts) sch = Some c' ->
+  nth_error (c_threads c') i = Some (TCol (CDone out)) -> out <> None.
+Proof.
+  intros Hi HR E ->.
+  pose proof (run_head_not_failed sch _ _ HR (initial_not_failed ts Hi)) as HN.
+  rewrite forallb_forall in HN. apply nth_error_In in E. apply HN in E. discriminate.
+Qed.
+
+(* the unpatched Counter(): a request has registered its limiter (window 10) and not yet
+   stored the window data; a collection visits that state and divides by zero.  With the
+   patched Counter() the same collection reports 0 for the key and the request proceeds. *)
+Definition fwit_threads : list thread := [TReq wit_key wit_wd RLook; TCol CNew].
+Definition fwit_schedule : list label := [lab 0 1; lab 1 1; lab 1 1; lab 1 1].
+Definition fwit_schedule_head : list label := fwit_schedule ++ [lab 1 1; lab 0 1].
+
+Lemma fresh_divides_witness :
+  exists c', run FreshDivides (init_config fwit_threads) fwit_schedule = Some c' /\
+             nth_error (c_threads c') 1 = Some (TCol (CDone None)).
+Proof. eexists. split; vm_compute; reflexivity. Qed.
+
+Lemma fresh_head_witness :
+  exists c', run Head (init_config fwit_threads) fwit_schedule_head = Some c' /\
+             c_threads c' = [TReq wit_key wit_wd (RDone Proceed); TCol (CDone (Some [(wit_key, 0)]))].
+Proof. eexists. split; vm_compute; reflexivity. Qed.
